@@ -455,7 +455,12 @@ func (w *c20world) key() string {
 		mf = append(mf, k)
 	}
 	sort.Strings(mf)
-	return strings.Join(parts, "|") + "#" + strings.Join(vs, ",") + "#" + strings.Join(mf, ",")
+	// whatever else the cache holds (nothing, for the code this was written against); the invalidation counters only matter to
+	// requests in flight (Part B) and are left out on purpose
+	sub := []string{"RWMutex", "invalidations", "requestedIdxs", "duties", "metadata"}
+	extra := schedx.ExtraState(c, "eth2Cl", "activeValIdxs", "proposerDuties", "attesterDuties", "syncDuties") +
+		schedx.ExtraState(&c.proposerDuties, sub...) + schedx.ExtraState(&c.attesterDuties, sub...) + schedx.ExtraState(&c.syncDuties, sub...)
+	return strings.Join(parts, "|") + "#" + strings.Join(vs, ",") + "#" + strings.Join(mf, ",") + extra
 }
 
 type c20case struct {
